@@ -54,3 +54,27 @@ Example C10_nonvacuous :
   concat (snd (run (init false) [EConnect 1%N 7%N false false None None; EConnect 2%N 7%N false false None None])) =
     [OConnack 1%N false 0%N; OConnack 2%N false 2%N].
 Proof. vm_compute. split; reflexivity. Qed.
+
+(* "within bounded time": the take-over stops the old connection, and stopping it waits for its reader goroutine.  The
+   close sequence gets the reader out of its read with a deadline of a microsecond; the reader re-arms its keep-alive
+   deadline at the top of every loop.  model/ReaderKick.v: one access per step, the reader's loop against the close
+   sequence against the client's packets, any interleaving, from any point of the loop - the reader is never left
+   waiting for the client once the close sequence has done its two steps, and three steps later it is gone; the order of
+   the accesses is re-read from reader.go / connection.go on every run (C10_reader_shape); the loop as it was is
+   refuted (refute/C10.v). *)
+From Coq Require String.
+From VMQ Require Import gen.Extracted model.ReaderKick proofs.ReaderKickProofs.
+Theorem C10_reader_never_waits_for_the_client_after_close : forall keepalive r d es,
+  stuck (ReaderKick.run 0 keepalive (start r d) es) = false /\
+  (cl (ReaderKick.run 0 keepalive (start r d) es) = CKicked ->
+   rd (ReaderKick.run 0 keepalive (ReaderKick.run 0 keepalive (start r d) es) [Reader; Reader; Reader]) = RGone).
+Proof. intros ka r d es. split; [apply reader_never_stuck | apply reader_gone_after_close]. Qed.
+Print Assumptions C10_reader_never_waits_for_the_client_after_close.
+
+Import String.StringSyntax Ascii.AsciiSyntax.
+Open Scope string_scope.
+Eval vm_compute in (rshape_diff reader_shape).
+Close Scope string_scope.
+Theorem C10_reader_shape : rshape_ok reader_shape = true.
+Proof. vm_compute. reflexivity. Qed.
+Print Assumptions C10_reader_shape.
